@@ -180,6 +180,7 @@ class Probe:
         self.calls = 0
         self.log = []
         self.injected = None  # the exception object raised, if any
+        self.injected_state = None  # what that object carried when it left the callable (exc_state)
         self.kept = []        # (invocation, argument objects, their elements, snapshot when handed over)
         self.inner = None     # outcome of the re-entrant inner call, if the plan asked for one
         self.reenter = None   # set by invoke(): a thunk performing the inner call
@@ -210,12 +211,14 @@ class Probe:
                 except BaseException as e:  # noqa: BLE001
                     if self.injected is None:
                         self.injected = e
+                        self.injected_state = exc_state(e)
                     raise
                 raise SystemExit(f"harness error: natural failure {p['what']} did not fail")
             if p["kind"] == "raise":
                 e = EXC_KINDS[p["exc"]](f"injected at invocation {k}")
                 if self.injected is None:
                     self.injected = e
+                    self.injected_state = exc_state(e)
                 raise e
             if p["kind"] == "wrong_return":
                 return WRONG_RETURNS[p["ret"]](args)
@@ -223,6 +226,19 @@ class Probe:
         # what the callable hands back stays the callable's: a cached or logged result must still be what it was
         self.returned.append((k, res, list(res) if isinstance(res, (list, tuple)) else None, snapshot((res,))))
         return res
+
+
+def exc_state(e):
+    """what an exception object carries besides its traceback (which grows legitimately while it propagates): its
+    arguments, its notes, its instance attributes, its cause and context"""
+    try:
+        attrs = sorted((k, repr(v)[:80]) for k, v in vars(e).items())
+    except BaseException:  # noqa: BLE001
+        attrs = None
+    notes = getattr(e, "__notes__", None)
+    return (repr(e.args)[:200], None if notes is None else [str(n)[:120] for n in notes], attrs,
+            id(e.__cause__) if e.__cause__ is not None else None, id(e.__context__) if e.__context__ is not None else None,
+            e.__suppress_context__)
 
 
 def snapshot(args):
@@ -391,6 +407,10 @@ def judge(case, plan, r0, out, pr):
         if not out["is_injected"]:
             return ("F1_error_replaced", f"the callable raised {plan['exc']} on its first invocation but the driver raised {out['type']}: {out['msg']!r} "
                     f"instead of that exception object (callable invoked {pr.calls} times)")
+        now = exc_state(pr.injected)
+        if now != pr.injected_state:
+            return ("F1_error_modified", f"the callable raised {plan['exc']} on its first invocation and the driver raised that object, but not unchanged: "
+                    f"(args, notes, attributes, cause, context, suppress_context) were {str(pr.injected_state)[:160]} when it left the callable and are {str(now)[:160]} at the caller")
         return None
     if first_fire >= 2 and out != r0:
         return ("F2_later_fault_visible", f"a fault planned for invocation {plan['at']} fired and changed the outcome: {str(out)[:100]} vs fault-free {str(r0)[:100]} "
